@@ -62,24 +62,24 @@ AtYield == Blocked \/ pc \in {"window", "dead"}
 
 Conform ==
     /\ tmode = "conform" /\ l < N /\ UNCHANGED <<tid, tmode, ob>>
-    /\ \/ /\ E.k \in {"launch", "rc", "end", "fault", "pfin", "notified"} /\ now = E.s \div 2   \* informational for this mode
+    /\ \/ /\ E.k \in {"launch", "rc", "end", "fault", "ofault", "pfin", "notified"} /\ now = E.s \div 2   \* informational for this mode
           /\ l' = l + 1 /\ UNCHANGED vars
        \/ /\ E.k = "blocked" /\ AtYield /\ ObsNow = E.o
           /\ l' = l + 1 /\ UNCHANGED vars
-       \/ /\ E.k \in {"blocked", "launch", "rc", "end", "fault"}  \* the monitor thread is running
+       \/ /\ E.k \in {"blocked", "launch", "rc", "end", "fault", "ofault"}  \* the monitor thread is running
           /\ MonitorStep /\ UNCHANGED l
        \/ /\ now < E.s \div 2
           /\ Tick /\ UNCHANGED l
        \/ /\ E.k = "notify" /\ Stamp = E.s /\ ProducerFinishes(1) /\ ObsNow' = E.o /\ l' = l + 1
        \/ /\ E.k = "pfinish" /\ Stamp = E.s /\ ProducerFinishes(E.p) /\ ObsNow' = E.o /\ l' = l + 1
-       \/ /\ E.k = "output" /\ Stamp = E.s /\ NewOutput /\ ObsNow' = E.o /\ l' = l + 1
+       \/ /\ E.k = "output" /\ Stamp = E.s /\ NewOutputFrom(E.src) /\ ObsNow' = E.o /\ l' = l + 1
        \/ /\ E.k = "extkill" /\ Stamp = E.s /\ ExternalKill /\ ObsNow' = E.o /\ l' = l + 1
        \/ /\ E.k = "timer" /\ timer2 = E.s /\ KillDelay /\ ObsNow' = E.o /\ l' = l + 1
 
 Observe ==
     /\ tmode = "observe" /\ l < N /\ UNCHANGED <<tid, tmode>>
     /\ l' = l + 1 /\ ob' = E.o
-    /\ h' = CASE E.k = "output"  -> HOutput(h, E.s)
+    /\ h' = CASE E.k = "output"  -> HOutput(h, E.s, E.src)
               [] E.k \in {"notify", "notified"} -> HNotify(h, E.s \div 2, NLiveSeen(cfg.shape))
               [] E.k = "pfin"    -> HPFinish(h, E.p, E.s \div 2, NLiveSeen(cfg.shape))
               [] E.k = "timer"   -> HTimer(h)
@@ -87,6 +87,8 @@ Observe ==
               [] E.k = "launch"  -> HLaunch(h, E.s \div 2, cfg.mode)
               [] E.k = "rc"      -> HTaskEnd(h, E.rc)
               [] E.k = "fault"   -> HFault(h)
+              [] E.k = "ofault"  -> HOFault(h, E.o.retries)
+              [] E.k \in {"blocked", "end"} -> HYield(h, E.o.retries)
               [] OTHER -> h
     /\ UNCHANGED <<cfg, now, pc, wakeAt, retries, cancel, suicide, kc, consume, pdone, timer2, lastL, lastF, begun,
                    proc, procRc, procKilled, isNew, pdwis, didExec, dev, sched, obs>>
@@ -100,11 +102,12 @@ Verdicts(alive, rt, t) ==
      p2 |-> P2_FinalOutputObserved(h, alive, cfg.mode),
      p3a |-> P3_BoundedAttempts(h, cfg),
      p3b |-> P3_StopsForAReason(h, alive, rt),
-     p3c |-> P3_StopsInTime(h, alive, cfg, t)]
+     p3c |-> P3_StopsInTime(h, alive, cfg, t),
+     p4 |-> P4_FaultNeverCharged(h)]
 
 Report ==
     LET v == IF tmode = "observe" THEN Verdicts(ob.alive, ob.retries, ob.now) ELSE Verdicts(Alive, retries, now)
-        good == v.p0 /\ v.p1 /\ v.p2 /\ v.p3a /\ v.p3b /\ v.p3c
+        good == v.p4 /\ v.p0 /\ v.p1 /\ v.p2 /\ v.p3a /\ v.p3b /\ v.p3c
     IN (l = N \/ (tmode = "observe" /\ ~good) \/ Verbose) =>
           PrintT(ToJson([tid |-> tid, m |-> tmode, l |-> l, done |-> (l = N), dev |-> dev, v |-> v, now |-> now, pc |-> pc]))
 =============================================================================
